@@ -78,7 +78,8 @@ def gen_members(rng, tag):
         elif digits:
             idents.append(str(perm[j]))
         else:
-            idents.append(f"{tag}m{j}{rng.choice(['', 'x', '7'])}")
+            # (endings that collide with the letters of the ':to' / ':from' directives included)
+            idents.append(f"{tag}m{j}{rng.choice(['', 'x', '7', 't', 'o', 'to', 'f', 'r', 'm', 'from', 'photo', 'room'])}")
     out = []
     named = [i for i in idents if i is not None]
     for j, ident in enumerate(idents):
